@@ -55,12 +55,16 @@ type ev struct {
 	Amb   int   `json:"amb,omitempty"`    // the idle timer may have fired around this step: no verdict on it
 	Armed int   `json:"armed,omitempty"`  // kIdleWait: a timer was armed when the wait began
 	GapUS int64 `json:"gap_us,omitempty"` // heartbeat max gap over the timed window
+	Tries int   `json:"tries,omitempty"`  // timed calls are repeated (up to 3x) when slow; DurUS is the fastest attempt
+	Late  int   `json:"late,omitempty"`   // kIdleWait: level was not yet 0 after 3x timeout + 200 ms (polled on, up to 10 s)
 }
 
 type caseLog struct {
 	No    int    `json:"no"`
 	Evs   []ev   `json:"evs"`
 	Panic string `json:"panic,omitempty"`
+	// seq: an idle wait never saw level 0 within 10 s; the rest of the sequence was not run
+	Aborted bool `json:"aborted,omitempty"`
 	// idle mode: quiescent observation
 	Touched  bool  `json:"touched,omitempty"`
 	FinalLvl int64 `json:"final_lvl,omitempty"`
@@ -142,22 +146,68 @@ func runSeq(s caseSpec) (lg caseLog) {
 	idle := time.Duration(s.IdleMS) * time.Millisecond
 	armed, needIdle := false, false
 	var touchB, touchA time.Time
-	idleWait := func() {
-		e := ev{K: kIdleWait}
-		from := time.Now()
-		if armed {
-			e.Armed = 1
-			from = touchB
-			if d := time.Until(touchA.Add(3*idle + 200*time.Millisecond)); d > 0 {
-				time.Sleep(d)
+	aborted := false
+	var idleWait func()
+	signalStep := func() { // recorded Signal (also used to make sure an idle wait starts from a positive level)
+		e := ev{K: kSignal}
+		prevArmed, prevB := armed, touchB
+		tb := time.Now()
+		th.Signal()
+		ta := time.Now()
+		e.Lvl = int64(th.Level())
+		tl := time.Now()
+		if idle > 0 {
+			if (prevArmed && ta.Sub(prevB) >= idle/2) || tl.Sub(tb) >= idle/2 {
+				e.Amb, needIdle = 1, true
 			}
-		} else {
-			time.Sleep(3*idle + 200*time.Millisecond)
+			armed, touchB, touchA = true, tb, ta
+		}
+		lg.Evs = append(lg.Evs, e)
+	}
+	idleWait = func() {
+		if !armed {
+			return
+		}
+		// Only a drop from a positive level to 0 proves that the timer callback has
+		// run to completion; from level 0 nothing could be concluded.
+		if th.Level() == 0 {
+			signalStep()
+		}
+		e := ev{K: kIdleWait, Armed: 1}
+		from := touchB
+		if d := time.Until(touchA.Add(3*idle + 200*time.Millisecond)); d > 0 {
+			time.Sleep(d)
+		}
+		if th.Level() != 0 {
+			e.Late = 1
+			for lim := time.Now().Add(10 * time.Second); th.Level() != 0 && time.Now().Before(lim); {
+				time.Sleep(5 * time.Millisecond)
+			}
 		}
 		e.Lvl = int64(th.Level())
+		e.DurUS = time.Since(touchA).Microseconds()
 		e.GapUS = hb.MaxGap(from, time.Now()).Microseconds()
 		lg.Evs = append(lg.Evs, e)
 		armed, needIdle = false, false
+		if e.Lvl != 0 {
+			aborted = true
+			lg.Aborted = true
+		}
+	}
+	// timed runs a timed call up to 3 times while it is slower than ok; returns the fastest attempt
+	timed := func(ok func(d time.Duration) bool, f func() error) (best time.Duration, gap time.Duration, err error, tries int) {
+		for tries = 1; ; tries++ {
+			t0 := time.Now()
+			e := f()
+			d := time.Since(t0)
+			g := hb.MaxGap(t0, time.Now())
+			if tries == 1 || d < best {
+				best, gap, err = d, g, e
+			}
+			if ok(d) || tries == 3 {
+				return
+			}
+		}
 	}
 	ambNow := func() bool { // may the timer armed by the last touch have fired by now?
 		return idle > 0 && armed && time.Since(touchB) >= idle/2
@@ -169,6 +219,9 @@ func runSeq(s caseSpec) (lg caseLog) {
 	for i := 0; i < s.Ops; i++ {
 		if idle > 0 && (needIdle || ambNow()) {
 			idleWait()
+		}
+		if aborted {
+			break
 		}
 		k := r.IntN(100)
 		if idle > 0 && s.Mode == "seq" && r.IntN(100) < 30 {
@@ -198,26 +251,34 @@ func runSeq(s caseSpec) (lg caseLog) {
 				break
 			}
 			e.K = kDelayCancel
-			var ctx context.Context
-			var cancel context.CancelFunc
-			switch r.IntN(4) {
+			how := r.IntN(4)
+			switch how {
 			case 0:
-				ctx, cancel = context.WithCancel(context.Background())
-				cancel()
 				e.CanUS = -1
 			case 1:
 				e.CanUS = int64(1000 + r.IntN(20000))
-				ctx, cancel = context.WithTimeout(context.Background(), time.Duration(e.CanUS)*time.Microsecond)
 			default:
 				e.CanUS = int64(500 + r.IntN(30000))
-				ctx, cancel = context.WithCancel(context.Background())
-				time.AfterFunc(time.Duration(e.CanUS)*time.Microsecond, cancel)
 			}
-			t0 := time.Now()
-			err := th.Delay(ctx)
-			e.DurUS = time.Since(t0).Microseconds()
-			e.GapUS = hb.MaxGap(t0, time.Now()).Microseconds()
-			cancel()
+			d0 := th.GetDelay()
+			e.ValNS = int64(d0)
+			best, gap, err, tries := timed(func(d time.Duration) bool { return d <= d0/2+100*time.Millisecond }, func() error {
+				var ctx context.Context
+				var cancel context.CancelFunc
+				switch how {
+				case 0:
+					ctx, cancel = context.WithCancel(context.Background())
+					cancel()
+				case 1:
+					ctx, cancel = context.WithTimeout(context.Background(), time.Duration(e.CanUS)*time.Microsecond)
+				default:
+					ctx, cancel = context.WithCancel(context.Background())
+					time.AfterFunc(time.Duration(e.CanUS)*time.Microsecond, cancel)
+				}
+				defer cancel()
+				return th.Delay(ctx)
+			})
+			e.DurUS, e.GapUS, e.Tries = best.Microseconds(), gap.Microseconds(), tries
 			if err != nil {
 				e.Err = 1
 			}
@@ -248,10 +309,9 @@ func runSeq(s caseSpec) (lg caseLog) {
 			}
 		case k < 87:
 			e.K = kDelay
-			t0 := time.Now()
-			err := th.Delay(context.Background())
-			e.DurUS = time.Since(t0).Microseconds()
-			e.GapUS = hb.MaxGap(t0, time.Now()).Microseconds()
+			d0 := th.GetDelay()
+			best, gap, err, tries := timed(func(d time.Duration) bool { return d <= 3*d0+100*time.Millisecond }, func() error { return th.Delay(context.Background()) })
+			e.DurUS, e.GapUS, e.Tries = best.Microseconds(), gap.Microseconds(), tries
 			if err != nil {
 				e.Err = 1
 			}
@@ -276,7 +336,7 @@ func runSeq(s caseSpec) (lg caseLog) {
 		}
 		lg.Evs = append(lg.Evs, e)
 	}
-	if idle > 0 && armed {
+	if idle > 0 && armed && !aborted {
 		idleWait()
 	}
 	return lg
@@ -436,6 +496,9 @@ func runIdle(s caseSpec) (lg caseLog) {
 	}
 	lg.Touched = touched.Load()
 	time.Sleep(3*idle + 200*time.Millisecond)
+	for lim := time.Now().Add(10 * time.Second); th.Level() != 0 && time.Now().Before(lim); {
+		time.Sleep(5 * time.Millisecond)
+	}
 	lg.FinalLvl = int64(th.Level())
 	lg.FinalGap = hb.MaxGap(t0, time.Now()).Microseconds()
 	return lg
